@@ -114,7 +114,35 @@ def cases(rng, tier):
                 p["flip"] = rng.random() < 0.5
                 p["eqmode"] = rng.choice(["plain", "plain", "narrow", "one_cell", "close_big", "close_tiny", "float_same"])
         out.append(p)
+    # tables whose fields have OTHER element types (floats, unsigned beyond 2**63, booleans, time stamps and durations at nanosecond
+    # resolution, narrow integers): every route to entry k -- iteration, an integer index, a one-row list / slice, the concatenation
+    # with itself -- hands out the cells of row k in the field's own element type
+    for _ in range(120 if tier == "quick" else 1500):
+        nf = rng.randint(1, 3)
+        n = rng.randint(1, 5)
+        out.append({"f": "typed", "cols": _gen_cols(rng, nf, n), "cdts": [rng.choice(TYPED) for _ in range(nf)]})
     return out
+
+
+TYPED = ["float64", "uint64", "bool", "datetime64[ns]", "timedelta64[ns]", "datetime64[s]", "int8", "float32", "uint8"]
+
+
+def _typed_arr(c, dt):
+    a = _arr(c)
+    if dt == "uint64":
+        return a.astype(np.uint64) + np.uint64(2 ** 63)
+    if dt == "bool":
+        return a % 2 == 0
+    if dt.startswith("datetime64"):
+        return (a + 1577836800 * (10 ** 9 if dt.endswith("[ns]") else 1)).astype(dt)
+    if dt in ("float64", "float32"):
+        return a.astype(dt) + 0.5
+    return a.astype(dt)
+
+
+def _cellrep(x):
+    x = np.asarray(x)
+    return [str(x.dtype), [int(v) for v in x.shape], np.ascontiguousarray(x).tobytes().hex()]
 
 
 def key(p):
@@ -194,6 +222,16 @@ def run_impl(p):
             objs = [_obj(t) for t in p["tables"]]
             return _table(np.concatenate(objs), [c["n"] for c in p["tables"][0]])
         names = [c["n"] for c in p["cols"]]
+        if f == "typed":
+            arrs = [_typed_arr(c, dt) for c, dt in zip(p["cols"], p["cdts"])]
+            obj = _cls(names)(*[a.copy() for a in arrs])
+            n = len(arrs[0])
+            routes = {"iter": lambda k: list(obj)[k], "int": lambda k: obj[k], "neg": lambda k: obj[k - n], "list": lambda k: obj[[k]][0],
+                      "slice": lambda k: list(obj[k:k + 1])[0], "concat": lambda k: np.concatenate([obj, obj])[n + k]}
+            o = {"k": "obs"}
+            for rn, get in routes.items():
+                o[rn] = guarded(lambda: canon([[_cellrep(getattr(get(k), nm)) for nm in names] for k in range(n)]))
+            return o
         obj = _obj(p["cols"], (len(str(p["cols"])) % 3) if f == "ctor" else 0)
         if f == "ctor":
             return _table(obj, names)
@@ -298,6 +336,10 @@ def oracle(p):
         return {"k": "obs", "entries": canon(ents), "len": canon(len(ents)), "names": canon(names)}
     cols = p["cols"]
     names = [c["n"] for c in cols]
+    if f == "typed":
+        arrs = [_typed_arr(c, dt) for c, dt in zip(cols, p["cdts"])]
+        want = canon([[_cellrep(a[k]) for a in arrs] for k in range(len(arrs[0]))])
+        return {"k": "obs", **{rn: want for rn in ("iter", "int", "neg", "list", "slice", "concat")}}
     if len({len(c["v"]) for c in cols}) > 1:
         return refuse()
     ents = _raw_entries(cols)
@@ -336,6 +378,8 @@ def lean_request(p):
     def cols(cs):
         return [{"n": c["n"], "v": c["v"]} for c in cs]
     if f == "varlen" and "vdts" in p:
+        return None
+    if f == "typed":
         return None
     if f == "varlen":
         return {"op": "DC.run", "f": "varlen", "mats": p["mats"]}
